@@ -29,7 +29,7 @@ ENCODED = [indexing.Index._replace, indexing.Index._discard, indexing.Store._rep
            indexing.OperatorIndexer.replace, indexing.OperatorIndexers.replace, indexing.OperatorIndexers.discard,
            indexing.index_resource, processing.process_resource_event, queueing.watcher]
 META = {
-    'bounds': 'H1: <=4 symbolic ops (replace with a symbolic 0-2 key mapping or scalar / discard) over 2 objects x 2 keys, '
+    'bounds': 'h_gate also with the indexed kind served in two namespaces (two watchers, two listings). H1: <=4 symbolic ops (replace with a symbolic 0-2 key mapping or scalar / discard) over 2 objects x 2 keys, '
               'symbolic values. H2: 2 events over 2 objects (3 events per cell do not exhaust within 20 CPU-minutes and are not claimed; symbolic which object, event type, label match, outcome kind in '
               'dict/scalar/None/Temporary(delay 0 or 60)/Permanent/arbitrary-ignored, symbolic key and value). H3: 2 resource kinds, '
               '<=2 listed objects, symbolic listing delays and tie-breaks.',
